@@ -12,6 +12,24 @@ CHECKS = {
         "Every product in the stated finite space is synthesized by an encoder that shares no code with the reader, opened through open_alos2 and every pixel word compared as an unsigned integer with the file's big-endian word. Exhaustive within the bounds; says nothing beyond 6x4 images or outside the 13 float / 7 uint16 bit patterns.",
         "trusts the frozen layout tables (mc/layout), NumPy byte-order conversion and fsspec's local/memory filesystems; signalling NaNs excluded",
     ),
+    "C02": (
+        "model_checking",
+        "exhaustive enumeration of every index expression of a finite per-axis alphabet (depth 1) plus explicit-state BFS over chains of indexing steps (state = effective selection), each executed on the real lazy array and compared with an in-memory twin",
+        "All ints, all slices (bounds None|-n-1..n+1, steps None|+-1|+-2|+-3), all integer arrays of length <= 2, all boolean masks on the line axis crossed with column expressions, getitem/sel/pointwise spellings, and chains to depth 2 (quick) / 3 (thorough) with deduplication on the effective selection (cross-checked once without deduplication). Deviations that a trivially correct NumPy-backed backend under the same xarray adapter shows identically are attributed to xarray (known findings D13a-c).",
+        "trusts the in-memory xarray/NumPy indexing as the reference; images <= 5x3; expressions outside the alphabet (longer index arrays, larger steps) are not covered",
+    ),
+    "C06": (
+        "exploration",
+        "exhaustive enumeration of (lines, records_per_chunk) pairs with full-tree differential comparison against the rpc=1 tree, with and without an index cache",
+        "Every L in 1..6 and rpc in {1..L+2, 1024, 1e9} for both sample types; the fully loaded tree snapshot must be identical leaf for leaf except the advertised preferred chunk size, which is checked against min(rpc, L).",
+        "pairwise identity for L > 3 is derived by transitivity through rpc=1; two images per product",
+    ),
+    "C11": (
+        "exploration",
+        "I/O-event monitor on a tracing fsspec filesystem over the exhaustive selection alphabet of C02 x rpc x geometry, spans computed by independent arithmetic",
+        "For every selection, rpc in 1..L+1 and L in 1..4 (quick) / 1..6 (thorough) the recorded open/seek/read events of the load are checked: <= 1 open, <= 1 read per overlapping line group, every read inside its group and the file, none outside the span, nothing for empty selections; the metadata pass of every open is checked to be the descriptor followed by <= ceil(L/rpc) contiguous reads.",
+        "events are observed at the fsspec file-object level on the harness' mcfs:// filesystem; selections whose lazy shape xarray mis-composes (C02 D13c) are skipped and counted",
+    ),
 }
 
 PENDING = {}
